@@ -55,13 +55,19 @@ func getRamainsSum(states *[]types.State) sdk.DecCoins {
 
 func (k Keeper) PrepareCoinsToDistribute(sources []*types.Account, ctx sdk.Context, states []types.State, subDistributorName string) sdk.DecCoins {
 	allCoinsToDistribute := sdk.NewDecCoins()
+	// The main account source must be evaluated before any other source is swept into the main account,
+	// otherwise the swept coins would be counted twice (once as the source's coins and once as main account balance).
 	for _, source := range sources {
-		var coinsToDistribute sdk.DecCoins
 		if source.Type == types.Main {
-			coinsToDistribute = k.prepareCoinToDistributeForMainAccount(ctx, states, subDistributorName)
-		} else {
-			coinsToDistribute = k.prepareCoinToDistributeForNotMainAccount(ctx, *source, states, subDistributorName)
+			allCoinsToDistribute = allCoinsToDistribute.Add(k.prepareCoinToDistributeForMainAccount(ctx, states, subDistributorName)...)
+			break
 		}
+	}
+	for _, source := range sources {
+		if source.Type == types.Main {
+			continue
+		}
+		coinsToDistribute := k.prepareCoinToDistributeForNotMainAccount(ctx, *source, states, subDistributorName)
 
 		if len(coinsToDistribute) == 0 {
 			continue
